@@ -101,7 +101,48 @@ func judgeStream(l *mrun.Loaded, s []byte, fail func(sig, msg string)) (evals in
 			}
 		}
 	}
+	// the same bytes inside a connection on which this matcher has accepted another message
+	// before (cx.Wrap: a terminating handler hands the inner stream on with the outer context,
+	// variables and replacer): the verdict is a function of the bytes in front of the matcher
+	if !l.Spec.UDP {
+		for _, o := range outerSeeds(l) {
+			if bytes.Equal(o, s) {
+				continue
+			}
+			outer, _ := mrun.Conn(o, false)
+			l.Eval(outer)
+			v := l.Eval(mrun.ConnOn(outer, s))
+			evals += 2
+			if cls(v) != verdicts[n] {
+				fail("verdict-depends-on-outer-connection:"+l.Spec.Module, fmt.Sprintf("%s says %s on %x alone but %s on the same bytes inside a connection on which it accepted %x before", l.Spec, raw[n], s, v, o))
+			}
+		}
+	}
 	return evals, verdicts[n]
+}
+
+var outerCache = map[string][][]byte{}
+
+// outerSeeds: up to two corpus messages the matcher accepts.
+func outerSeeds(l *mrun.Loaded) [][]byte {
+	k := l.Spec.String()
+	if c, ok := outerCache[k]; ok {
+		return c
+	}
+	var out [][]byte
+	for _, m := range mrun.Seeds(l.Spec) {
+		if len(out) == 2 {
+			break
+		}
+		if len(m) > 4096 {
+			continue
+		}
+		if cx, _ := mrun.Conn(m, false); l.Eval(cx).V == "yes" {
+			out = append(out, m)
+		}
+	}
+	outerCache[k] = out
+	return out
 }
 
 // andSet makes a matcher set usable where a single matcher is expected.
